@@ -269,6 +269,15 @@ func classifyRange(p *packages.Package, site rangeSite) (class string, why strin
 			if !pure(rhs) {
 				return "", "right-hand side of " + nospace(l) + " calls " + nospace(rhs)
 			}
+			// the loop's own key / value variable, or a variable defined inside the body, is fresh in every iteration
+			if id, ok := l.(*ast.Ident); ok {
+				if id.Name == key || id.Name == val {
+					return "local", ""
+				}
+				if obj := info.ObjectOf(id); obj != nil && obj.Pos() >= rs.Body.Pos() && obj.Pos() < rs.Body.End() {
+					return "local", ""
+				}
+			}
 			if ix, ok := l.(*ast.IndexExpr); ok {
 				if _, isMap := info.TypeOf(ix.X).Underlying().(*types.Map); isMap {
 					idx := nospace(ix.Index)
@@ -422,6 +431,10 @@ func condReadsLoopWrites(loop *ast.RangeStmt, is *ast.IfStmt) string {
 		}
 		return true
 	})
+	// the loop's own iteration variables are fresh in every iteration: assigning to them carries nothing over
+	for v := range iter {
+		delete(written, v)
+	}
 	bad := ""
 	check := func(root ast.Node) {
 		var stack []ast.Node
